@@ -1,11 +1,11 @@
 SPECIFICATION Spec
 CONSTANTS
-  Conns = {1, 2}
-  MaxReq = 2
+  Conns = @@CONNS@@
+  MaxReq = @@MAXREQ@@
   Concurrency = @@CONC@@
   MaxWrites = @@WRITES@@
   Ctxs <- MCCtxs
-  AllowSelf = @@SELF@@
+  Kinds = @@KINDS@@
   NoCtx = 0
   PickAny = FALSE
 INVARIANT Inv
